@@ -1,16 +1,28 @@
 #!/bin/bash
-# Runs the repository's pinned suite (module root, as BASELINE.json does) and prints pass/fail counts.
+# Runs the repository's pinned suite (module root, as BASELINE.json does) and checks that every
+# baseline stable_pass test still passes (a pass that became a skip counts as a regression).
 # usage: repotest.sh [repo-dir]
 export GOFLAGS=-mod=mod GOPROXY=off GOSUMDB=off GOTOOLCHAIN=local
 unset GOWORK
 cd "${1:-/repo}" || exit 2
-out=$(go test -json -vet=off -count=1 -timeout 25m ./... 2>&1)
-pass=$(printf '%s\n' "$out" | grep -c '"Action":"pass".*"Test":')
-fail=$(printf '%s\n' "$out" | grep -c '"Action":"fail".*"Test":')
-pkgfail=$(printf '%s\n' "$out" | grep '"Action":"fail"' | grep -vc '"Test":')
-echo "tests passed=$pass failed=$fail package-failures=$pkgfail"
-if [ "$fail" != 0 ] || [ "$pkgfail" != 0 ]; then
-  printf '%s\n' "$out" | grep '"Action":"fail"' | head -20
-  printf '%s\n' "$out" | grep -v '^{' | head -30
-  exit 1
-fi
+go test -json -vet=off -count=1 -timeout 25m ./... 2>&1 | python3 -c "
+import sys,json
+base=set(json.load(open('/root/.vp/BASELINE.json'))['stable_pass'])
+got=set(); other={}; noise=[]
+for l in sys.stdin:
+    try: e=json.loads(l)
+    except Exception:
+        noise.append(l.rstrip()); continue
+    if e.get('Test') and e.get('Action') in('pass','fail','skip'):
+        k=e['Package']+'::'+e['Test']
+        if e['Action']=='pass': got.add(k)
+        else: other[k]=e['Action']
+    elif e.get('Action')=='fail': other[e.get('Package','?')]='fail'
+miss=sorted(base-got)
+fails=[k for k,v in other.items() if v=='fail']
+print('tests passed=%d baseline=%d missing-from-pass=%d failed=%d'%(len(got),len(base),len(miss),len(fails)))
+for k in miss[:20]: print('  NOT PASSING:',k,other.get(k))
+for k in fails[:20]: print('  FAIL:',k)
+if noise and (miss or fails): print('\n'.join(noise[:30]))
+sys.exit(1 if miss or fails else 0)
+"
